@@ -11,6 +11,7 @@ import (
 	"io"
 	"os"
 	"os/exec"
+	"path/filepath"
 	"strings"
 	"sync"
 	"syscall"
@@ -100,7 +101,9 @@ type worker struct {
 func (wk *worker) start() {
 	exe, _ := os.Executable()
 	wk.cmd = exec.Command(exe, "-tier", core.Opt.Tier, "-worker", "serve")
-	wk.cmd.Env = append(os.Environ(), "GOMAXPROCS=2", "C08_SETUP="+wk.setup)
+	// the workers' directories live below the coordinator's scratch directory: one RemoveAll at the
+	// end also removes what a killed worker left behind
+	wk.cmd.Env = append(os.Environ(), "GOMAXPROCS=2", "C08_SETUP="+wk.setup, "VERIF_SCRATCH="+filepath.Dir(wk.setup))
 	wk.errb = &tail{}
 	wk.cmd.Stderr = wk.errb
 	in, _ := wk.cmd.StdinPipe()
